@@ -151,6 +151,7 @@ func (r *Run) opAuthorize(st Step) {
 		}
 	}
 	fmt.Sscanf(st.p("preset_id_exp"), "%d", &con.PresetIDExp)
+	fmt.Sscanf(st.p("preset_at_exp"), "%d", &con.PresetATExp)
 	if st.p("no_auth_time") != "" {
 		con.NoAuthTime = true
 	}
@@ -319,9 +320,18 @@ func (r *Run) afterAuthorize(st Step, cs *ClientSpec, res *Resp, q url.Values, c
 	if at != "" {
 		ca = r.L.AddCred(&Cred{Kind: "at", Val: at, G: g, Issued: now, Endpoint: "authorize", Delivered: true,
 			Life: r.overrideLife(cs, "implicit:access_token", r.W.K.DocATLife())})
+		if con.PresetATExp > 0 {
+			ca.Life = time.Duration(con.PresetATExp) * time.Second // session-provided lifetime
+			r.probe("lifetime-source:session-provided")
+		}
 		var e int64
 		fmt.Sscanf(p.Get("expires_in"), "%d", &e)
 		ca.ExpiresIn = time.Duration(e) * time.Second
+		if ca.Life > 0 && ca.ExpiresIn > 0 {
+			if d := ca.ExpiresIn - ca.Life; d > Tol || d < -Tol {
+				r.violate("C07", "expires-in-inconsistent", "implicit", "the authorization endpoint advertises expires_in=%s, the lifetime that applies is %s", ca.ExpiresIn, ca.Life)
+			}
+		}
 		r.secret(at, "access_token")
 		r.checkMinted(at, "at")
 	}
